@@ -554,5 +554,4 @@ theorem roundtrip_core (name : Nat → String) (hinj : ∀ a b, name a = name b 
     dStmts [] [] (build name want (decompile p)) = some (p.map norm) :=
   build_denotes name hinj want (decompile p) p (decompileFrom_shl_pos p _ _ _) (compile_decompile p h)
 
-#print axioms roundtrip_core
 end P.Sem
